@@ -32,17 +32,20 @@ ALL = SAFE + " " + REPAIRED_ONLY
 # ---- repaired design: every property
 cfg("one_quick", "repaired; one stream, 13 scripts of every class, duplicates, three heights", "ChOneQ", streams="{1}", inv=ALL, maxh=3, extra=2)
 cfg("q1", "repaired; an honest future-height stream beside a stream that violates the grammar", "ChQ1", inv=ALL, extra=0, maxdup=1)
-cfg("q2", "repaired; an honest stream beside hijack / second Fin / floods", "ChQ2", inv=ALL, extra=0, maxdup=1)
+cfg("q2", "repaired; an honest stream beside a hijacked number 0 / floods", "ChQ2", inv=ALL, extra=0, maxdup=1)
 cfg("one", "repaired; one stream, the whole catalogue, duplicates, three heights", "ChOne", streams="{1}", inv=ALL, maxh=3, extra=2)
-for n in ("Gram1", "Gram2", "Gram3", "Trick1", "Trick2", "Flood", "Hon"):
-    cfg(n.lower(), "repaired; two streams: " + n, "Ch" + n, inv=ALL, extra=1)
+for n in ("Gram1", "Gram2", "Gram3", "Trick1", "Trick2", "Trick3", "Flood", "Hon"):
+    cfg(n.lower(), "repaired; two streams: " + n, "Ch" + n, inv=ALL, extra=0, maxdup=1)
+cfg("out0", "repaired; an unbuffered outputs channel: every hand-over waits for the driver, a commit cancels it", "ChOut0", inv=ALL, outcap=0, extra=0, maxdup=1)
+cfg("ascoded_out0", "as coded; an unbuffered outputs channel", "ChOut0", outcap=0, extra=0, maxdup=1, sw=ASCODED)
 # ---- liveness (repaired): an honest stream is delivered whatever the other stream does
-cfg("live1", "repaired; liveness under fairness beside grammar violations", "ChL1", inv="", props="HonestDelivered", spec="FairSpec", inputcap=4, extra=0, maxdup=1)
-cfg("live2", "repaired; liveness under fairness beside floods", "ChL2", inv="", props="HonestDelivered", spec="FairSpec", inputcap=4, extra=0, maxdup=1)
+for n, what in ((1, "grammar violations"), (2, "a hijacked number 0"), (3, "a second Fin"), (4, "floods"), (5, "floods of a past and a future height")):
+    cfg("live%d" % n, "repaired; liveness under fairness beside " + what, "ChL%d" % n, inv="", props="HonestDelivered", spec="FairSpec", inputcap=4, extra=0, maxdup=1)
+cfg("live_q", "repaired; liveness under fairness, quick tier", "ChLq", inv="", props="HonestDelivered", spec="FairSpec", inputcap=4, extra=0, maxdup=1)
 # ---- the code as it is: what holds in spite of the defects
 cfg("ascoded_one", "as coded; one stream, the whole catalogue", "ChOne", streams="{1}", maxh=3, extra=1, sw=ASCODED)
-cfg("ascoded_q", "as coded; an honest stream beside hijack / second Fin / floods", "ChQ2", extra=0, maxdup=1, sw=ASCODED)
-cfg("ascoded_trick", "as coded; two streams: tricks", "ChTrick1", extra=1, sw=ASCODED)
+cfg("ascoded_q", "as coded; an honest stream beside a hijacked number 0 / floods", "ChQ2", extra=0, maxdup=1, sw=ASCODED)
+cfg("ascoded_trick", "as coded; two streams: tricks", "ChTrick1", extra=0, maxdup=1, sw=ASCODED)
 cfg("ascoded_flood", "as coded; two streams: floods", "ChFlood", extra=1, sw=ASCODED)
 # ---- expected violations: the defects
 X = dict(extra=0, maxdup=1)
@@ -50,7 +53,7 @@ cfg("x_nilstate", "as coded: a second number-0 message on a stream whose first o
 cfg("x_block", "as coded: a stream nobody reads blocks the demux for ever", "ChXBlock", inv="DemuxNeverStops", sw=dict(ASCODED, FixNilState="TRUE"), **X)
 cfg("x_block_live", "as coded: ... and the honest stream beside it is never delivered", "ChXBlock", inv="", props="HonestDelivered", spec="FairSpec", sw=dict(ASCODED, FixNilState="TRUE"), **X)
 cfg("x_block_future", "as coded: parts of a future height fill the input and the commit that would start the stream is never handled", "ChXFut", inv="DemuxNeverStops", sw=dict(ASCODED, FixNilState="TRUE"), maxh=3, **X)
-cfg("x_refin", "as coded: a second stream Fin hands the Proposal out twice", "ChXReFin", inv="AtMostOneProposalPerStream", sw=dict(ASCODED, FixNilState="TRUE", FixBlock="TRUE"), **X)
+cfg("x_refin", "as coded: a second stream Fin hands the Proposal out twice", "ChXReFin1", streams="{1}", inv="AtMostOneProposalPerStream", sw=dict(ASCODED, FixNilState="TRUE", FixBlock="TRUE"), **X)
 cfg("x_buffer", "as coded: the out-of-order buffer has no bound", "ChXBuf", inv="BufferBounded", sw=dict(ASCODED, FixNilState="TRUE", FixBlock="TRUE", BufBound=3), **X)
 cfg("x_leak", "design: a stream of a height already left is kept for ever", "ChXPast", inv="NoLeak", **X)
 cfg("x_leak_unstarted", "design: a stream that never gets its number 0 is kept for ever", "ChXBlock", inv="NoLeakStrict", **X)
